@@ -213,9 +213,13 @@ def rule_text(r, printer_cls=cond.Printer):
     return txt
 
 
-def harness_rules(rs):
-    """One add_rules_str_in_namespace call per rule, in declaration order."""
-    return [{"ns": "ns%d" % r["ns"], "src": rule_text(r)} for r in rs["rules"]]
+def harness_rules(rs, imports=()):
+    """One add_rules_str_in_namespace call per rule, in declaration order (imports go with the first rule, so
+    that no extra namespace is created)."""
+    out = [{"ns": "ns%d" % r["ns"], "src": rule_text(r)} for r in rs["rules"]]
+    if imports and out:
+        out[0]["src"] = "".join('import "%s"\n' % m for m in imports) + out[0]["src"]
+    return out
 
 
 def g_rule(r):
@@ -232,17 +236,66 @@ def g_scanner(rs):
         glist(g_rule(r) for r in gl), glist(g_rule(r) for r in od), rs["nns"])
 
 
-def g_inputs(rs, mem, ac_checks=0, direct=True):
-    gl = [r for r in rs["rules"] if r["global"]]
-    od = [r for r in rs["rules"] if not r["global"]]
-    ms = []
-    for r in gl + od:
-        for _, p in r["strings"]:
-            offs = cond.find_all(mem, bytes(p))
-            ms.append(glist("{| m_base := 0; m_off := %d; m_len := %d |}" % (o, len(p)) for o in offs))
-    return ("{| i_matches := %s; i_ext := []; i_filesize := %s; i_mem := %s; i_ac_checks := %d |}"
+MODULE_IDS = {"math": 1, "time": 2, "hash": 3, "string": 4}
+
+
+def ordered_rules(rs):
+    return [r for r in rs["rules"] if r["global"]] + [r for r in rs["rules"] if not r["global"]]
+
+
+def simulate_strings(rs, regions, limit=1000):
+    """String scan of plain text strings (<= 4 bytes, so the atom of a literal is the literal itself).
+    regions: list of (base, bytes).  Returns (matches per variable [(base, off, len)], hits) where hits has one
+    entry per Aho-Corasick hit in scan order: the list of string ids (rule id * 100 + string index) reaching the
+    match limit while that hit is handled.  Mirrors AcScan::new (atoms lower-cased and de-duplicated across
+    variables, fan-out in registration order), the overlapping search order (end offset, then longer pattern
+    first), literal confirmation, insertion and truncation."""
+    variables = []          # (literal, string id)
+    for r in ordered_rules(rs):
+        for k, (_, p) in enumerate(r["strings"]):
+            assert len(p) <= 4
+            variables.append((bytes(p), r["id"] * 100 + k))
+    atoms = {}              # lowered atom -> [variable index]
+    for vi, (lit, _) in enumerate(variables):
+        atoms.setdefault(lit.lower(), []).append(vi)
+    matches = [[] for _ in variables]
+    reached = set()
+    hits = []
+    for base, mem in regions:
+        low = mem.lower()
+        occ = []
+        for a in atoms:
+            for o in cond.find_all(low, a):
+                occ.append((o + len(a), -len(a), o, a))
+        occ.sort()
+        for end, _, o, a in occ:
+            evs = []
+            for vi in atoms[a]:
+                lit, sid = variables[vi]
+                if mem[o:o + len(lit)] != lit:
+                    continue
+                m = (base, o, len(lit))
+                if m not in matches[vi]:
+                    matches[vi].append(m)
+                if len(matches[vi]) > limit:
+                    del matches[vi][limit:]
+                    if vi not in reached:
+                        reached.add(vi)
+                        evs.append(sid)
+            hits.append(evs)
+    return matches, hits
+
+
+def g_inputs(rs, mem, ac_checks=None, direct=True, regions=None, limit=1000, imports=()):
+    if regions is None:
+        regions = [(0, mem)]
+    matches, hits = simulate_strings(rs, regions, limit)
+    ms = [glist("{| m_base := %d; m_off := %d; m_len := %d |}" % m for m in l) for l in matches]
+    return ("{| i_matches := %s; i_ext := []; i_filesize := %s; i_mem := %s; i_ac := %s; i_imports := %s |}"
             % (glist(ms), "Some %d" % len(mem) if direct else "None",
-               "(Some %s)" % gbytes(mem) if direct else "None", ac_checks))
+               "(Some %s)" % gbytes(mem) if direct else "None",
+               glist(glist("%d" % x for x in h) for h in hits),
+               glist("%d" % MODULE_IDS[m] for m in imports)))
 
 
 def rule_key(rs, ns_name, name):
